@@ -1,4 +1,5 @@
 import GuppyVerif.Lemmas.C08Bfs
+import GuppyVerif.Lemmas.C08Complete
 import GuppyVerif.Props.C09
 /-! # C08 — Use-before-definition and path-dependent types are rejected exactly
 
@@ -96,6 +97,78 @@ theorem branchtype_sound {U : UCfg} (hU : U.WF) {A : Ana} (hA : AnaOK U A) (fuel
   · obtain ⟨y, hy, _⟩ := hall _ hx; cases hy
   · obtain ⟨y, hy, hc⟩ := hall _ hx
     cases hy; exact ⟨hc, hno⟩
+
+/-- **C08, second sentence (completeness).**  If the check succeeds, no variable that is read
+    after a join can arrive there with two different types: the BFS has compared every edge it
+    follows, and `check_rows_match` accepted all of them. -/
+theorem accepted_no_conflict {U : UCfg} (hU : U.WF) {A : Ana} (hA : AnaOK U A) (fuel : Nat)
+    (c : Compiled) (h : checkCfg U A fuel = some (.ok c)) (x : Var) : ¬ TypeConflict U x := by
+  unfold checkCfg at h
+  have hentry := checkBB_entry hU hA
+  cases hck : checkBB U A U.entry U.args with
+  | error es => simp [hck] at h
+  | ok outs =>
+    simp only [hck] at h hentry
+    obtain ⟨_, houts, hrow, hsucc⟩ := hentry
+    have hc : CompOK U A [(U.entry, U.args, outs)] := by
+      intro b row outs' hf
+      rw [findC_cons] at hf
+      split at hf
+      · rename_i hb; cases hf; subst hb
+        exact ⟨hU.entry_mem, hrow, houts, hsucc, fun x => ⟨_, .entry, fun t ht => ht⟩⟩
+      · cases hf
+    have hq : QOK U (revEnum U.entry (U.succ U.entry ++ U.dsucc U.entry)) [(U.entry, U.args, outs)] := by
+      intro p i b hm
+      obtain ⟨hp, hs⟩ := mem_revEnum hm
+      subst hp
+      refine ⟨U.args, outs, by rw [findC_cons]; simp, hs, ?_⟩
+      have := List.mem_of_getElem? hs
+      rw [List.mem_append] at this
+      exact this.imp id fun h => ⟨rfl, h⟩
+    have he : EdgeDone U [(U.entry, U.args, outs)] (revEnum U.entry (U.succ U.entry ++ U.dsucc U.entry)) := by
+      intro b row outs' hf i s hs
+      rw [findC_cons] at hf
+      split at hf
+      · rename_i hb; subst hb
+        left
+        have : followed U U.entry = U.succ U.entry ++ U.dsucc U.entry := by simp [followed]
+        rw [this] at hs
+        exact revEnum_mem hs
+      · cases hf
+    obtain ⟨hcf, hef, hmono⟩ := bfs_complete hU hA fuel _ _ c hc hq he h
+    have hent : findC U.entry c = some (U.args, outs) := hmono _ _ (by rw [findC_cons]; simp)
+    rintro ⟨b, t₁, t₂, hne, h1, h2, hlive⟩
+    obtain ⟨hbb, hAS⟩ := tyAt_mem hU h1
+    have hl : x ∈ A.live b := (hA.live b hbb x).mpr hlive
+    obtain ⟨row, outs1, hf1, a1⟩ := tyAt_agrees hU hA hcf hef hent h1
+    obtain ⟨row', outs2, hf2, a2⟩ := tyAt_agrees hU hA hcf hef hent h2
+    rw [hf1] at hf2; cases hf2
+    have e1 := a1 hl (hAS rfl)
+    have e2 := a2 hl (hAS rfl)
+    rw [e1] at e2
+    exact hne (Option.some.inj e2)
+
+/-- **C08, second sentence, both directions**: provided no variable is undefined, the check
+    reports a type error iff some variable has a path-dependent type where it is read. -/
+theorem branchtype_iff {U : UCfg} (hU : U.WF) {A : Ana} (hA : AnaOK U A) (fuel : Nat)
+    (r : Except (List Err) Compiled) (h : checkCfg U A fuel = some r) (hno : ∀ x, ¬ Undef U x) :
+    (∃ es x, r = .error es ∧ Err.branchType x ∈ es) ↔ ∃ x, TypeConflict U x := by
+  constructor
+  · rintro ⟨es, x, he, hx⟩
+    subst he
+    exact ⟨x, (branchtype_sound hU hA fuel es h x hx).1⟩
+  · rintro ⟨x, hx⟩
+    cases r with
+    | ok c => exact absurd hx (accepted_no_conflict hU hA fuel c h x)
+    | error es =>
+      have hs := checkCfg_spec hU hA fuel _ h
+      obtain ⟨hne, hcase⟩ := hs
+      obtain ⟨e, he⟩ := List.exists_mem_of_ne_nil _ hne
+      rcases hcase with ⟨⟨y, hy⟩, _⟩ | ⟨_, hall⟩
+      · exact absurd hy (hno y)
+      · obtain ⟨y, hy, _⟩ := hall e he
+        subst hy
+        exact ⟨es, y, rfl, he⟩
 
 /-- **C08, third sentence.**  A program free of both problems is never rejected for these
     reasons: the check succeeds. -/
